@@ -174,7 +174,15 @@ def run(ctx: Context, rep) -> None:
         "consecutive islices of the (cycled) shard stream, mapped whole and "
         "in order - no de-duplication or reordering inside a batch, which "
         "would shift the phase of the cycle (same check as C02.batch)")
-    from sa.rules.c15 import check_epoch
+    from sa.rules.c15 import check_epoch, check_release
+    check_release(ctx, rep, "C19.rust-stream")
+    rep.rule(
+        "C19.rust-stream",
+        "as_numpy_iterator_rust yields the generator's epochs unchanged "
+        "(`yield from g()` inside the generator's `with` block): no extra "
+        "buffering or reordering is wrapped around the endless stream, which "
+        "would carry examples across epoch boundaries (same check as "
+        "C15.release)")
     check_epoch(ctx, rep, "C19.epoch")
     rep.rule(
         "C19.epoch",
